@@ -263,7 +263,7 @@ func c14(x *mon.Ctx) {
 			add("svn/minimum_pce_svn", fmt.Sprintf("%d#%d", v, rep), ref.Policy{MinPceSvn: v}, quotes, nil)
 		}
 		for n := 0; n <= 5; n++ {
-			for _, comp := range []string{"full-equal", "all-empty", "one-short", "one-long", "one-plus-256", "one-differs", "mixed", "one-doubled", "one-two-registers-run-together", "one-tripled", "one-as-hex-digits"} {
+			for _, comp := range []string{"full-equal", "all-empty", "one-short", "one-long", "one-plus-256", "one-differs", "mixed", "one-of-1-byte", "one-of-3-bytes", "one-of-7-bytes", "one-doubled", "one-two-registers-run-together", "one-tripled", "one-as-hex-digits"} {
 				var l [][]byte
 				for i := 0; i < n; i++ {
 					v := append([]byte{}, q.Rtmrs[i%4]...)
@@ -281,6 +281,11 @@ func c14(x *mon.Ctx) {
 					case "one-plus-256":
 						if i == n-1 {
 							v = append(v, make([]byte, 256)...)
+						}
+					case "one-of-1-byte", "one-of-3-bytes", "one-of-7-bytes": // a few bytes only (a tight slice)
+						if i == n-1 {
+							k := map[string]int{"one-of-1-byte": 1, "one-of-3-bytes": 3, "one-of-7-bytes": 7}[comp]
+							v = append(make([]byte, 0, k), v[:k]...)
 						}
 					case "one-doubled": // lengths that are a multiple of the right one
 						if i == n-1 {
@@ -313,7 +318,7 @@ func c14(x *mon.Ctx) {
 			}
 		}
 		for n := 0; n <= 4; n++ {
-			for _, comp := range []string{"none", "first", "last", "short-entry", "long-entry", "empty-entry", "entry-plus-256", "repeated-other", "repeated-match", "other-match-other-again", "doubled-entry", "matching-entry-as-hex-digits", "two-entries-run-together", "entry-of-16-values"} {
+			for _, comp := range []string{"none", "first", "last", "short-entry", "long-entry", "empty-entry", "entry-of-1-byte", "entry-of-5-bytes", "entry-plus-256", "repeated-other", "repeated-match", "other-match-other-again", "doubled-entry", "matching-entry-as-hex-digits", "two-entries-run-together", "entry-of-16-values"} {
 				var l [][]byte
 				for i := 0; i < n; i++ {
 					v := make([]byte, 48)
@@ -342,6 +347,11 @@ func c14(x *mon.Ctx) {
 					case "entry-plus-256":
 						if i == n-1 {
 							v = append(append([]byte{}, q.MrTd...), make([]byte, 256)...)
+						}
+					case "entry-of-1-byte", "entry-of-5-bytes":
+						if i == n/2 {
+							k := map[string]int{"entry-of-1-byte": 1, "entry-of-5-bytes": 5}[comp]
+							v = append(make([]byte, 0, k), q.MrTd[:k]...)
 						}
 					case "doubled-entry":
 						if i == n-1 {
@@ -422,6 +432,36 @@ func c14(x *mon.Ctx) {
 			}
 			bad[n-1] = bad[n-1][:47]
 			add("any-mr-td", fmt.Sprintf("len%d/last-short", n), ref.Policy{AnyMrTd: bad}, quotes, nil)
+			// one wrongly sized entry among n-1 good (non-matching) ones: too long (by one byte, double, the quote's MR_TD followed
+			// by more), a few bytes only — first, in the middle, last
+			for _, how := range []string{"49-bytes", "96-bytes", "mr-td-plus-one-byte", "mr-td-twice", "1-byte", "3-bytes", "7-bytes", "8-bytes"} {
+				for _, at := range []int{0, n / 2, n - 1} {
+					l := make([][]byte, n)
+					for i := range l {
+						l[i] = make([]byte, 48)
+						r.Read(l[i])
+					}
+					switch how {
+					case "49-bytes":
+						l[at] = append(l[at], 7)
+					case "96-bytes":
+						l[at] = append(l[at], l[at]...)
+					case "mr-td-plus-one-byte":
+						l[at] = append(append([]byte{}, q.MrTd...), 0)
+					case "mr-td-twice":
+						l[at] = append(append([]byte{}, q.MrTd...), q.MrTd...)
+					case "1-byte":
+						l[at] = []byte{0x41}
+					case "3-bytes":
+						l[at] = []byte{1, 2, 3}
+					case "7-bytes":
+						l[at] = []byte{1, 2, 3, 4, 5, 6, 7}
+					case "8-bytes":
+						l[at] = []byte{1, 2, 3, 4, 5, 6, 7, 8}
+					}
+					add("any-mr-td", fmt.Sprintf("len%d/%s@%d", n, how, at), ref.Policy{AnyMrTd: l}, quotes, nil)
+				}
+			}
 		}
 	}
 	// two listed measurements that agree under a checksum (CRC-64 / CRC-32 by the checksum's linear kernel, Adler-32 / FNV-32 by a
